@@ -55,9 +55,17 @@ type ServiceRouter struct {
 	// used for keeping track of a service's routes and manipulating the routing mapping on updates.
 	svcRoutes map[string][]protoreflect.FullName
 
-	// map from target name to its latest description, used to hand over the services
+	// map from target name to the services listed by its latest description, used to hand over the services
 	// released by a target to another target which also lists them.
-	descs map[string]*bridgedesc.Target
+	// The names and service pointers are recorded during the update itself, so that descriptions
+	// never have to be read again after UpdateDesc has returned.
+	descs map[string]targetListing
+}
+
+type targetListing struct {
+	target   *bridgedesc.Target
+	names    []protoreflect.FullName
+	services []*bridgedesc.Service
 }
 
 // NewServiceRouter initializes a new [ServiceRouter] with the specified connection pool and options.
@@ -73,7 +81,7 @@ func NewServiceRouter(pool grpcadapter.ClientPool, opts ServiceRouterOpts) *Serv
 		logger:     opts.Logger.WithComponent("grpcbridge.routing"),
 		watcherSet: syncset.New[string](),
 		svcRoutes:  make(map[string][]protoreflect.FullName),
-		descs:      make(map[string]*bridgedesc.Target),
+		descs:      make(map[string]targetListing),
 	}
 }
 
@@ -237,10 +245,13 @@ func (sr *ServiceRouter) updateRoutes(desc *bridgedesc.Target) {
 
 	newSvcRoutes := make([]protoreflect.FullName, 0, len(desc.Services))
 	presentSvcRoutes := make(map[protoreflect.FullName]struct{}, len(desc.Services))
+	listing := targetListing{target: desc}
 
 	// Handle current routes
 	for i := range desc.Services {
 		svc := &desc.Services[i]
+		listing.names = append(listing.names, svc.Name)
+		listing.services = append(listing.services, svc)
 
 		// Add new routes
 		newRoute := serviceRoute{target: desc, service: svc}
@@ -280,7 +291,7 @@ func (sr *ServiceRouter) updateRoutes(desc *bridgedesc.Target) {
 	}
 
 	sr.svcRoutes[desc.Name] = newSvcRoutes
-	sr.descs[desc.Name] = desc
+	sr.descs[desc.Name] = listing
 	sr.handOver(released, desc.Name)
 }
 
@@ -317,13 +328,13 @@ func (sr *ServiceRouter) handOver(released []protoreflect.FullName, releasedBy s
 
 	for _, svcName := range released {
 		for _, name := range names {
-			desc := sr.descs[name]
-			idx := slices.IndexFunc(desc.Services, func(s bridgedesc.Service) bool { return s.Name == svcName })
+			listing := sr.descs[name]
+			idx := slices.Index(listing.names, svcName)
 			if idx < 0 {
 				continue
 			}
 
-			if _, loaded := sr.routes.LoadOrStore(svcName, serviceRoute{target: desc, service: &desc.Services[idx]}); !loaded {
+			if _, loaded := sr.routes.LoadOrStore(svcName, serviceRoute{target: listing.target, service: listing.services[idx]}); !loaded {
 				sr.logger.Debug("handing over route", "target", name, "service", svcName)
 				sr.svcRoutes[name] = append(sr.svcRoutes[name], svcName)
 			}
